@@ -8,9 +8,9 @@ multi-line (crates/printer/src/standard.rs: `record_matches`, `replace`, `Sunk::
 
   * haystack cut at `range.end + MAX_LOOK_AHEAD` (`Replace.maxLookAhead`), no terminator trimming;
   * `is_at_unterminated_end` computed on the cut haystack (`Replace.isAtUnterminatedEnd`);
-  * `replace_with_captures_in_context` (`Replace.replaceWithCapturesInContext`, the coordinator's model) —
-    its final `dst.extend(&bytes[last_match..end])` panics in Rust when `last_match > end` (a kept match that
-    ends beyond the block); the model returns `none` there instead of clamping;
+  * `replace_with_captures_in_context` (`Replace.replaceWithCapturesInContext`, the coordinator's model), which
+    since 55c3d7e clamps `last_match` to `range.end`, so that a kept match reaching beyond the block (possible
+    through the look-ahead cut) no longer makes `&bytes[last_match..end]` an invalid slice;
   * `Replacer::replacement()` is `None` when no expansion was recorded: the original bytes and the original
     matches are printed then;
   * the printing itself is the C09 model (`Printer.sinkBody`), applied to the replaced bytes with the expansion
@@ -25,13 +25,11 @@ def sp0 (c : Caps) : Span := (c.get 0).getD ⟨0, 0⟩
 /-- `find_at` seen through `captures_at`: the overall match -/
 def findOf (capsAtOf : Bytes → Nat → Option Caps) : Oracle := fun hay p => (capsAtOf hay p).map sp0
 
-/-- `Replacer::replace_all`, multi-line branch. `none`: the slice `&bytes[last_match..end]` after the loop has
-`last_match > end` (Rust panics). -/
+/-- `Replacer::replace_all`, multi-line branch. -/
 def replaceAllMulti (sc : SCfg) (capsAtOf : Bytes → Nat → Option Caps) (names : List (Bytes × Nat))
-    (haystack : Bytes) (rs re : Nat) (tmpl : Bytes) : Option RState :=
+    (haystack : Bytes) (rs re : Nat) (tmpl : Bytes) : RState :=
   let hay := cutHaystack sc haystack re
-  let st := replaceWithCapturesInContext (capsAtOf hay) names hay rs re (isAtUnterminatedEnd sc.lt hay rs re) tmpl
-  if st.lastMatch > min hay.length re then none else some st
+  replaceWithCapturesInContext (capsAtOf hay) names hay rs re (isAtUnterminatedEnd sc.lt hay rs re) tmpl
 
 /-- `Sunk::from_sink_match(mat, &matches, replacer.replacement())` -/
 def sunkOf (buf : Bytes) (rs re absOff : Nat) (ln : Option Nat) (orig : List Span) (st : RState) : Sunk :=
@@ -39,13 +37,12 @@ def sunkOf (buf : Bytes) (rs re absOff : Nat) (ln : Option Nat) (orig : List Spa
   else { bytes := st.dst, absOff, lineNo := ln, ctx := none, ms := st.spans }
 
 /-- What `StandardSink::matched` writes for the block `[rs, re)` of `buf` (after the search prelude) when a
-replacement is configured; `none` when `replace_all` panics. `sc.multiLine` is `true` in this branch. -/
+replacement is configured. `sc.multiLine` is `true` in this branch. -/
 def printReplacedBlock (sc : SCfg) (c : StdCfg) (capsAtOf : Bytes → Nat → Option Caps) (names : List (Bytes × Nat))
-    (buf : Bytes) (rs re absOff : Nat) (ln : Option Nat) (tmpl : Bytes) : Option Bytes :=
-  -- `record_matches` (a replacement demands match granularity)
+    (buf : Bytes) (rs re absOff : Nat) (ln : Option Nat) (tmpl : Bytes) : Bytes :=
+  -- `record_matches` (a replacement demands match granularity), then `replace`
   let orig := shiftSpans rs (findIterInContext sc (findOf capsAtOf) buf rs re)
-  match replaceAllMulti sc capsAtOf names buf rs re tmpl with
-  | none => none
-  | some st => some (sinkBody sc c (sunkOf buf rs re absOff ln orig st))
+  let st := replaceAllMulti sc capsAtOf names buf rs re tmpl
+  sinkBody sc c (sunkOf buf rs re absOff ln orig st)
 
 end RgVerif.ReplaceMulti
